@@ -11,6 +11,8 @@ def main():
     jobs = [("gen", sh) for sh in ([chk.seed % nsh, (chk.seed + 5) % nsh, (chk.seed + 11) % nsh] if q else range(nsh))]
     jobs += [("rank", sh) for sh in range(4)]
     jobs += [("battery", sh) for sh in range(4)]
+    if not q:
+        jobs += [("stack", sh) for sh in range(4)]      # exchanges of up to eighteen captures on one square
     base = os.path.join(chk.outdir, "walk")
     nf = 4 if q else 16
     vlib.harness(hb, ["walk", "--seed", chk.seed, "--events", 2500 if q else 20000, "--files", nf, "--out", base])
